@@ -12,8 +12,8 @@ LEVEL = ('assert_max_version and MAX_SUPPORTED_VERSION regenerated from src/io/s
 MAXV = (3, 16, 0)
 
 
-def base_replay(rng):
-    r = synth.gen_wf(rng, (3, 16), nframes=0, ports=[(0, False), (1, True)], end='single', metadata={'a': 1}, gecko=0)
+def base_replay(rng, nframes=0):
+    r = synth.gen_wf(rng, (3, 16), nframes=nframes, ports=[(0, False), (1, True)], end='single', metadata={'a': 1}, gecko=0)
     b = synth.emit(r)
     off = 15 + 2 + 3 * len(synth.payload_table(r)) + 1
     assert b[off:off + 3] == bytes([3, 16, 0])
@@ -35,6 +35,11 @@ def run(ctx):
     chunk = 100
     for i in range(0, len(trip), chunk):
         cases.append(('m%d' % i, [base.hex(), str(off), ','.join('%d.%d.%d' % t for t in trip[i:i + chunk])]))
+    # the guard must not depend on the game's content: the same boundary grid on a game WITH frames (3.16 layout; the version bytes
+    # only select the guard: for triples whose layout differs the reader may refuse, which is reported as such and not judged)
+    base2, off2 = base_replay(rng, nframes=2)
+    grid2 = [(3, 16, c) for c in (0, 1, 2, 255)] + [(3, b, 0) for b in (16, 17, 200, 255)] + [(a, 0, 0) for a in (4, 5, 100, 255)]
+    cases.append(('g0', [base2.hex(), str(off2), ','.join('%d.%d.%d' % t for t in grid2)]))
     impl, model = both(ctx, 'maxver', cases, corr, timeout_ms=120000, parallel=8)
     for cid, f in cases:
         for l in impl.get(cid, []):
@@ -43,7 +48,9 @@ def run(ctx):
                 corr.oracle_failures.append((cid, 'unexpected harness line %r' % l[:100], {'line': l}))
                 continue
             t = tuple(int(m.group(i)) for i in (1, 2, 3))
-            corr.seen('maxver %s' % (t,))
+            corr.seen('maxver %s %s' % (cid[0], t))
+            if cid[0] == 'g' and m.group(4).startswith('read=ERR'):
+                corr.count('with_frames_not_readable_at_this_version'); continue
             want = 'OK' if t <= MAXV else 'ERR'
             exp = 'slp=%s slpp.n=%s slpp.l=%s slpp.z=%s' % (want, want, want, want)
             corr.count('accepted' if want == 'OK' else 'refused')
